@@ -168,11 +168,74 @@ def run(res, tier, seed, search=False, have_drv=True):
                 first = next(((a, b) for a, b in zip(impl[i], model[i]) if a != b), ("<length>", "<length>"))
                 res.broken.append("correspondence: real ping source and PingProto disagree on schedule `%s`: impl `%s` vs model `%s` (replay %s)"
                                   % (" | ".join(c[1:-1]), first[0], first[1], os.path.join(d, "case.sched")))
+    # uncontrolled runs: the handles' last operations issued at the same moment from several threads
+    for c, l, v in run_races(150 if tier == "quick" else 2000):
+        res.cov["evaluations"] += 1
+        if v:
+            res.cov["impl_monitor_failures"] += 1
+            if len(res.violations) < 3:
+                d = C.write_replay(res.pid, {"case.race": "\n".join(c) + "\n", "impl.obs": l + "\n", "verdict.txt": v + "\n"})
+                res.violations.append(("C03 on the real ping source, uncontrolled threads: %s   [%s]" % (v, " | ".join(c[1:-1])),
+                                       os.path.join(d, "case.race")))
+    res.cov["race_rounds"] = (150 if tier == "quick" else 2000) * len(RACES)
     if res.violations:
         res.broken = []
 
 
+RACES = [
+    ("race_two_last_drops", ["drop", "drop"]),
+    ("race_three_last_drops", ["drop", "drop", "drop"]),
+    ("race_ping_and_drops", ["ping ; drop", "clone ; drop ; drop", "drop"]),
+    ("race_one_keeps", ["ping ; drop", "ping"]),
+]
+
+
+def race_text(name, progs, rounds):
+    return ["case " + name, "pingers %d" % len(progs)] + ["prog %d: %s" % (i + 1, p) for i, p in enumerate(progs)] + ["race %d" % rounds]
+
+
+def spec_race(case, line):
+    """end state of one uncontrolled round: the source leaves the loop exactly when every handle is gone; a ping that
+    returned is followed by a callback"""
+    f = dict(x.split("=") for x in line.split()[2:])
+    cbs, gone, left = int(f["cbs"]), int(f["gone"]), int(f["left"])
+    pings = sum(l.split(":", 1)[1].count("ping") for l in case if l.startswith("prog"))
+    if left == 0 and not gone:
+        return "every handle was dropped (the last ones concurrently) but the source never closed: it is still in the loop"
+    if left > 0 and gone:
+        return "the source left the loop although %d handle(s) are still alive" % left
+    if pings > 0 and cbs == 0:
+        return "%d ping(s) returned but the callback never ran" % pings
+    if cbs > pings:
+        return "%d callbacks for %d pings" % (cbs, pings)
+    return None
+
+
+def run_races(rounds):
+    cases = [race_text(n, progs, rounds) for n, progs in RACES]
+    text = "\n".join("\n".join(c) for c in cases) + "\n"
+    rc, out, err = C.run_vh("pingsched", text, timeout=1200)
+    if rc != 0:
+        raise RuntimeError("vh pingsched (race) failed: " + err[-300:])
+    res = []
+    for c, t in zip(cases, split_cases(out.splitlines())):
+        for l in t:
+            if l.startswith("race "):
+                res.append((c, l, spec_race(c, l)))
+    return res
+
+
+def run_races_case(case):
+    rc, out, err = C.run_vh("pingsched", "\n".join(case) + "\n", timeout=1200)
+    return [(case, l, spec_race(case, l)) for l in out.splitlines() if l.startswith("race ")]
+
+
 def replay(path):
+    if path.endswith(".race"):
+        case = [l.rstrip("\n") for l in open(path) if l.strip()]
+        bad = [(l, v) for c, l, v in run_races_case(case) if v]
+        print(bad[:3])
+        return 1 if bad else 0
     case = [l.rstrip("\n") for l in open(path) if l.strip()]
     impl, model, ver = run_all([case])
     print("--- implementation\n" + "\n".join(impl[0]) + "\n--- model\n" + "\n".join(model[0]) + "\n--- Spec_C03: " + ver[0])
